@@ -115,6 +115,8 @@ class Ctx:
         self.size_keys = {}       # size atom -> container key
         self.written = None
         self.loopvars = {}        # decl id -> (atom, lo Lin, hi Lin inclusive) of enclosing counted loops, filled per site
+        self.allow_cur = False    # may a variable that the function writes be named by its *current* value ("cur:" atom)?  Only
+                                  # for the index expression and the live facts of one program point (facts are killed by writes)
 
     def _written_ids(self):
         if self.written is None:
@@ -180,6 +182,8 @@ class Ctx:
                         if v is not None:
                             return v
                 if ("id", d.get("id")) in self._written_ids():
+                    if self.allow_cur:
+                        return Lin({"cur:%s#%d" % (d["n"], d["id"]): 1})
                     return None       # reassigned: its value at this point is not tracked
                 return Lin({self.atom_of_ref(x): 1})
             if d.get("k") == "enumc":
@@ -191,6 +195,8 @@ class Ctx:
             base = x.c[0].strip_all() if x.c else None
             if base is None or base.k == "CXXThisExpr":
                 if ("field", x.decl["n"]) in self._written_ids() or ("field", "*") in self._written_ids():
+                    if self.allow_cur:
+                        return Lin({"cur:this.%s" % x.decl["n"]: 1})
                     return None
                 return Lin({"this.%s" % x.decl["n"]: 1})
             return None
@@ -653,11 +659,14 @@ def _gather(ctx, f, node, base_cons, seed_atoms, size_cache, skip_size_of=None):
     for fact in f.facts_at(node):
         if fact.belief:
             continue
+        ctx.allow_cur = True            # a live fact speaks about the current values of what it mentions (writes kill facts)
         alts = _fact_alternatives(ctx, fact.cond, fact.pol)
+        strict_ok = alts is not None and _fact_alternatives(ctx, fact.cond, fact.pol, strict=True) is not None
+        ctx.allow_cur = False
         if alts is None:
             nonlinear.append(fact)
             continue
-        if _fact_alternatives(ctx, fact.cond, fact.pol, strict=True) is None:
+        if not strict_ok:
             nonlinear.append(fact)      # partly linear: the linear part serves the proof, the whole fact is evaluated on instances
         if len(alts) == 1:
             base_cons += alts[0]
@@ -775,7 +784,9 @@ def rule_G7(prog, fixture=False):
             props = ["C05"] + (["C02"] if (C02_FILES.search(rel) or (fixture and "irfft" in f.name.lower())) else [])
             extra = {"props": props}
             loop_cons = _loop_constraints(ctx, node)
+            ctx.allow_cur = True
             e = ctx.lin(idx)
+            ctx.allow_cur = False
             if e is None:
                 # outside the affine fragment (products of variables, quotients by variables): no proof is attempted, but a small
                 # concrete instance can still refute
@@ -1162,7 +1173,7 @@ def _witness(ctx, cons, goal, e, size, relevant, nonlinear=()):
     base = sorted(a for a in relevant if a not in ctx.divs)
     if len(base) > 5:
         return None
-    if any(a.startswith("l:") for a in base):
+    if any(a.startswith("l:") or a.startswith("cur:") for a in base):
         return None           # a local whose value comes from a call or a loop: not a quantity an instance may choose freely
     divs = [d for d in ctx.divs if d in relevant]
 
@@ -1396,7 +1407,9 @@ def nonzero_verdict(prog, f, node, divisor, size_cache=None):
     f.blocks
     ctx = Ctx(prog, f)
     loop_cons = _loop_constraints(ctx, node)
+    ctx.allow_cur = True
     d = ctx.lin(divisor)
+    ctx.allow_cur = False
     if d is None or d.is_const():
         return ("unk", "divisor outside the linear fragment")
     base_cons = list(loop_cons)
